@@ -21,7 +21,12 @@ binnings in every Python-type flavour (all-int edge lists with widths 1/2/3, flo
 lists of numpy scalars, numpy arrays, tuples with int / float / mixed limits, the default), one
 long-lived `BulkObservables` object re-used for a whole call sequence alternating with fresh objects,
 several empty events including the last one, the same event list object appearing twice, events that
-are equal as lists.
+are equal as lists.  Every call is issued in one of several equivalent call forms (`CALL_FORMS`, built from the
+documented signatures hard-coded in `DOC_SIG`).  Histories on long-lived objects contain ERROR-PATH steps: calls
+with invalid arguments (`ERR_STEPS`), valid calls with warnings-as-errors, and data with poison elements
+(`POISON_KINDS`, at the first / a middle / the last position) that make some calls raise midway; every failed call
+is caught, must leave the object exactly as it was (`observe`), and the valid calls after it - on the same object
+and on a second object of the class - are judged like any other.
 """
 import csv
 import json
@@ -54,6 +59,33 @@ BIN_FLAVOURS = ["default", "tuple-int", "tuple-float", "tuple-mixed",
                 "list-int", "list-int", "list-int-unit", "list-float", "list-mixed", "list-qedges",
                 "list-npfloat-items", "list-npint-items", "ndarray-int", "ndarray-float"]
 REJECTABLE = {"list-npint-items", "ndarray-int", "ndarray-float"}
+
+# the DOCUMENTED parameter order and defaults of the public API (docstrings / signatures at the HEAD this check was
+# written against) - hard-coded on purpose: every call is issued in one of several equivalent forms built from this
+# table, so a signature change that re-binds a positional argument or changes a default shows as a wrong result
+REQUIRED = "<required>"
+DOC_SIG = {
+    "BulkObservables": [("particle_objects_list", REQUIRED)],
+    "dNdy": [("bin_properties", None)], "dNdpT": [("bin_properties", None)],
+    "dNdEta": [("bin_properties", None)], "dNdmT": [("bin_properties", None)],
+    "mid_rapidity_yield": [("y_width", 1.0), ("quantity", "rapidity")],
+    "mid_rapidity_mean_pT": [("y_width", 1.0), ("quantity", "rapidity")],
+    "mid_rapidity_mean_mT": [("y_width", 1.0), ("quantity", "rapidity")],
+}
+CALL_FORMS = ["positional", "keyword", "keyword-reversed", "mixed", "defaults-omitted"]
+
+# calls that must raise because of their ARGUMENTS (detected before any work is done)
+ERR_STEPS = {
+    "bins:str": ("dn", lambda: ("abc",)), "bins:dict": ("dn", lambda: ({"a": 1},)),
+    "bins:tuple-len2": ("dn", lambda: ((0, 1),)), "bins:tuple-float-n": ("dn", lambda: ((0, 1, 2.0),)),
+    "bins:list-with-str": ("dn", lambda: ([0, "a", 2],)), "bins:min>=max": ("dn", lambda: ((1, 1, 3),)),
+    "bins:n<=0": ("dn", lambda: ((0, 1, 0),)), "bins:extra-positional": ("dn", lambda: ((0, 1, 2), 3)),
+    "width:zero": ("mid", lambda: (0, "rapidity")), "width:negative": ("mid", lambda: (-1.0, "rapidity")),
+    "width:str": ("mid", lambda: ("1", "rapidity")), "width:none": ("mid", lambda: (None, "rapidity")),
+    "quantity:attribute": ("mid", lambda: (1.0, "E")), "quantity:missing": ("mid", lambda: (1.0, "no_such_method")),
+    "quantity:int": ("mid", lambda: (1.0, 3)), "mid:extra-positional": ("mid", lambda: (1.0, "rapidity", 2)),
+}
+POISON_KINDS = ["unset-E", "E<|pz|", "t<|z|", "duck", "alien"]
 
 
 # ------------------------------------------------------------------ translator (tie T)
@@ -91,23 +123,156 @@ def make_particles(events, alias=None):
             continue
         l = []
         for spec in ev:
+            if isinstance(spec, dict) and spec.get("poison") == "alien":
+                l.append("not a particle")
+                continue
             p = Particle()
-            for a, v in zip(ATTRS, spec):
+            for a, v in zip(ATTRS, spec["v"] if isinstance(spec, dict) else spec):
                 if v is not None:
                     setattr(p, a, v)
+            if isinstance(spec, dict) and spec.get("poison") == "duck":
+                p = Duck(p, spec["methods"])
             l.append(p)
         out.append(l)
     return out
 
 
-def new_bo(pl):
+class Duck:
+    """an element of the wrong type that supports only part of the Particle interface"""
+
+    def __init__(self, particle, methods):
+        self.data_ = particle.data_
+        for m in methods:
+            setattr(self, m, getattr(particle, m))
+
+
+def gen_poison(rng, kind):
+    """an element that makes SOME calls raise when the loop reaches it (JSON-able; see make_particles)"""
+    px, pz = rng.randint(1, 16) / 8.0, rng.randint(-8, 8) / 8.0
+    good = [px, 0.0, pz, math.sqrt(px * px + pz * pz + 0.25), 4.0, 1.0]
+    if kind == "unset-E":       # rapidity and mT are NaN -> Histogram.add_value raises; pT, eta fine
+        return dict(poison=kind, v=good[:3] + [None] + good[4:])
+    if kind == "E<|pz|":        # mT warns and is NaN, rapidity is NaN
+        return dict(poison=kind, v=[px, 0.0, 2.0, 1.0, 4.0, 1.0])
+    if kind == "t<|z|":         # spacetime_rapidity raises ValueError inside Particle
+        return dict(poison=kind, v=good[:4] + [1.0, 3.0])
+    if kind == "duck":
+        return dict(poison=kind, v=good, methods=rng.sample(["pT_abs", "rapidity", "pseudorapidity", "mT", "spacetime_rapidity"],
+                                                            rng.randint(1, 3)))
+    return dict(poison="alien")
+
+
+def strip_poison(evs):
+    return [[p for p in e if not isinstance(p, dict)] for e in evs]
+
+
+def has_poison(evs):
+    return any(isinstance(p, dict) for e in evs for p in e)
+
+
+def inject_poison(rng, evs):
+    """one or two poison elements at the first / a middle / the last position of the data (by loop order)"""
+    evs = [[p for p in e] for e in evs]
+    if not evs:
+        return evs
+    for _ in range(rng.randint(1, 2)):
+        kind = rng.choice(POISON_KINDS)
+        where = rng.choice(["first", "middle", "last"])
+        i = 0 if where == "first" else len(evs) - 1 if where == "last" else rng.randrange(len(evs))
+        j = 0 if where == "first" else len(evs[i]) if where == "last" else rng.randint(0, len(evs[i]))
+        evs[i].insert(j, gen_poison(rng, kind))
+    return evs
+
+
+def new_bo(pl, form="positional"):
     from sparkx.BulkObservables import BulkObservables
-    return BulkObservables(pl)
+    args, kwargs = bind("BulkObservables", dict(particle_objects_list=pl), form)
+    return BulkObservables(*args, **kwargs)
+
+
+def _pbytes(p):
+    d = getattr(p, "data_", None)
+    return d.tobytes() if isinstance(d, np.ndarray) else repr(p)
 
 
 def snapshot(pl):
     return (id(pl), [id(e) for e in pl], [[id(p) for p in e] for e in pl],
-            [[p.data_.tobytes() for p in e] for e in pl])
+            [[_pbytes(p) for p in e] for e in pl])
+
+
+def fingerprint(v, depth=0):
+    """value-level fingerprint of anything hanging off an object (lists by content, arrays by bytes, objects by their
+    attributes; particles and the wrapped input list also by identity)"""
+    if depth > 6:
+        return "..."
+    if isinstance(v, np.ndarray):
+        return ("nd", str(v.dtype), v.shape, v.tobytes())
+    if isinstance(v, (list, tuple)):
+        return (type(v).__name__, [fingerprint(x, depth + 1) for x in v])
+    if isinstance(v, (set, frozenset)):
+        return ("set", sorted(repr(fingerprint(x, depth + 1)) for x in v))
+    if isinstance(v, dict):
+        return ("dict", sorted((repr(k), repr(fingerprint(x, depth + 1))) for k, x in v.items()))
+    if isinstance(v, (int, float, str, bool, bytes, complex, type(None))):
+        return repr(v)
+    name = type(v).__name__
+    if name in ("Particle", "Duck"):
+        return (name, id(v), _pbytes(v))
+    if name == "ReadOnlyList":
+        return (name, id(getattr(v, "_nested_list", None)), fingerprint(vars(v), depth + 1))
+    if hasattr(v, "__dict__"):
+        return (name, fingerprint(vars(v), depth + 1))
+    return (name, repr(v))
+
+
+def observe(bo, pl):
+    """everything observable about a BulkObservables object and its input: the particle lists (identities, data
+    bytes), what the wrapper exposes, every instance attribute, every non-callable class attribute"""
+    cls = {k: v for k, v in vars(type(bo)).items()
+           if not callable(v) and not k.startswith("__") and not isinstance(v, (property, staticmethod, classmethod))}
+    try:
+        view = (len(bo.particle_objects), [id(e) for e in bo.particle_objects])
+    except Exception as e:  # noqa: BLE001
+        view = ("view-raises", type(e).__name__)
+    return (snapshot(pl), view, fingerprint(vars(bo)), fingerprint(cls))
+
+
+def is_default(v, d):
+    return d is not REQUIRED and type(v) is type(d) and (v is d or v == d)
+
+
+def bind(name, values, form):
+    """(args, kwargs) for the documented signature of `name` in one of the equivalent CALL_FORMS"""
+    sig = DOC_SIG[name]
+    if form == "positional" or form is None:
+        return [values[p] for p, _ in sig], {}
+    if form == "keyword":
+        return [], {p: values[p] for p, _ in sig}
+    if form == "keyword-reversed":
+        return [], {p: values[p] for p, _ in reversed(sig)}
+    if form == "mixed":
+        return [values[sig[0][0]]], {p: values[p] for p, _ in sig[1:]}
+    # defaults-omitted: a parameter whose value IS the documented default is left out; the others are positional as long
+    # as nothing before them was left out, keyword after that
+    args, kwargs, prefix = [], {}, True
+    for p, d in sig:
+        if is_default(values[p], d):
+            prefix = False
+        elif prefix:
+            args.append(values[p])
+        else:
+            kwargs[p] = values[p]
+    return args, kwargs
+
+
+def invoke(bo, name, args, kwargs, werr=False):
+    """call like a caller would; werr: warnings are errors for the duration of the call"""
+    with warnings.catch_warnings():
+        warnings.simplefilter("error" if werr else "ignore")
+        if werr:
+            return getattr(bo, name)(*args, **kwargs)
+        with np.errstate(all="ignore"):
+            return getattr(bo, name)(*args, **kwargs)
 
 
 def quantity_values(pl, name):
@@ -157,12 +322,14 @@ def rejected(b, real):
     return b.get("flavour") in REJECTABLE and (real[:2] == ("err", "value") or real[:2] == ("exc", "TypeError"))
 
 
-def call_dn(pl, meth, b, bo=None):
+def call_dn(pl, meth, b, bo=None, form=None, werr=False):
     """-> ('ok', bins, hist_object) | ('err', 'value') | ('exc', name)"""
     bo = bo if bo is not None else new_bo(pl)
+    if form is None:
+        form = "defaults-omitted" if b["kind"] == "default" else "positional"
+    args, kwargs = bind(meth, dict(bin_properties=bins_arg(b)), form)
     try:
-        with np.errstate(all="ignore"):
-            h = getattr(bo, meth)(bins_arg(b)) if b["kind"] != "default" else getattr(bo, meth)()
+        h = invoke(bo, meth, args, kwargs, werr)
     except ValueError:
         return ("err", "value", None)
     except Exception as e:  # noqa: BLE001
@@ -173,11 +340,14 @@ def call_dn(pl, meth, b, bo=None):
     return ("ok", [float(x) for x in arr[0]], h)
 
 
-def call_mid(pl, meth, w, flavour, use_default=False, bo=None):
+def call_mid(pl, meth, w, flavour, use_default=False, bo=None, form=None, werr=False):
     bo = bo if bo is not None else new_bo(pl)
+    if use_default:
+        args, kwargs = [], {}
+    else:
+        args, kwargs = bind(meth, dict(y_width=w, quantity=flavour), form)
     try:
-        with np.errstate(all="ignore"):
-            v = getattr(bo, meth)() if use_default else getattr(bo, meth)(w, flavour)
+        v = invoke(bo, meth, args, kwargs, werr)
     except ValueError:
         return ("err", "value")
     except Exception as e:  # noqa: BLE001
@@ -484,7 +654,9 @@ def correspond(ctx):
                 "0-10 particles, dyadic and generic kinematics, rarely an unset attribute; binnings stratified over "
                 "default / tuple (int, float, mixed limits) / explicit lists (all-int with widths 1-3, float, mixed, edges "
                 "bit-equal to particle values, numpy-scalar items) / numpy arrays (plus every flavour x method on a fixed "
-                "sample); every second sample runs all its calls on ONE re-used BulkObservables object; window widths incl. "
+                "sample); every second sample runs all its calls on ONE re-used BulkObservables object, with failing calls "
+                "(invalid arguments, warnings-as-errors) caught in between; every call in a random equivalent call form "
+                "(positional / keyword / reversed keywords / mixed / documented defaults omitted); window widths incl. "
                 "a particle exactly on the edge and invalid widths; three rapidity flavours. "
                 "non-trivial (dN/dx) = >=2 events, some bin filled, and an empty event or a value outside the range or "
                 "exactly on an edge; (mid) = >=2 events, a particle inside and one outside the window or an empty event")
@@ -519,8 +691,33 @@ def correspond(ctx):
         pl = make_particles(evs, alias)
         snap = snapshot(pl)
         reuse = idx % 2 == 1
-        bo = new_bo(pl) if reuse else None
+        ctor_form = rng.choice(["positional", "keyword"])
+        bo = new_bo(pl, ctor_form) if reuse else None
         ctx.count(f"sample/{tag}/{'reused-object' if reuse else 'fresh-objects'}")
+
+        def provoke():
+            """error path on the re-used object: a call that raises (invalid argument, or a valid call with warnings as
+            errors), caught like a caller would; the object must be what it was and the next answers must be right"""
+            if not reuse or forced or rng.random() > 0.35:
+                return
+            before = observe(bo, pl)
+            name = rng.choice(sorted(ERR_STEPS))
+            m = rng.choice(list(DN_METHODS) if ERR_STEPS[name][0] == "dn" else list(MID_METHODS))
+            step = dict(method=m, error=name)
+            try:
+                if rng.random() < 0.6:
+                    invoke(bo, m, list(ERR_STEPS[name][1]()), {})
+                else:
+                    m, name = rng.choice(list(DN_METHODS)), "valid call, warnings=error"
+                    step = dict(method=m, bins=dict(kind="default", v=None, flavour="default"), form="defaults-omitted", werr=True)
+                    invoke(bo, m, [], {}, werr=True)
+                return
+            except Exception:  # noqa: BLE001
+                ctx.count("sample/reused-object/failed-call-before-next-call")
+                note_failed(evs, alias, step)
+            if observe(bo, pl) != before:
+                brk(f"error-path: {m} [{name}] raised and left the BulkObservables object changed",
+                    case=dict(events=evs, alias=alias, method=m, error=name))
         # --- differential yields.  On a re-used object: shuffled, one method a second time, and after a call
         #     sometimes a twin binning (same numbers, other kind / element type / container) or the caller modifies
         #     the Histogram it got and asks the same question again; plus one (tuple spec, edge list) pair
@@ -550,7 +747,12 @@ def correspond(ctx):
             if not edges_contract(meth, b, edges):
                 brk(f"np.linspace contract violated for {b}", case=dict(bins=b))
                 continue
-            real = call_dn(pl, meth, b, bo)
+            provoke()
+            form = rng.choice(CALL_FORMS)
+            ctx.count(f"call-form/{form}")
+            real = call_dn(pl, meth, b, bo if bo is not None else new_bo(pl, ctor_form), form)
+            if real[0] != "ok" and not str(real[1]).startswith("shape"):
+                note_failed(evs, alias, dict(method=meth, bins=b, form=form))
             if rejected(b, real):
                 ctx.count(f"{meth}/bins={b['flavour']}/refused-by-validation")
                 ctx.case(("dn-refused", meth, json.dumps(b)), False)
@@ -602,7 +804,12 @@ def correspond(ctx):
                 rng.shuffle(mid_calls)
             for meth, xname in mid_calls:
                 x = quantity_values(pl, xname) if xname else [[0.0 for _ in e] for e in y]
-                real = call_mid(pl, meth, w, flavour, use_default, bo)
+                provoke()
+                form = rng.choice(CALL_FORMS)
+                ctx.count(f"call-form/{form}")
+                real = call_mid(pl, meth, w, flavour, use_default, bo if bo is not None else new_bo(pl, ctor_form), form)
+                if real[0] != "ok":
+                    note_failed(evs, alias, dict(method=meth, y_width=w, quantity=flavour, form=form))
                 op = "yield" if xname is None else "mean"
                 lines.append(f"{op}\t{f2h(float(w))}\t{enc_mid_events(y, x)}")
                 marg = dict(y_width=w, quantity=flavour, default_args=use_default)
@@ -753,27 +960,70 @@ def check_write(h, tmpdir):
     return None
 
 
-def oracle_dn(evs, meth, b, tmpdir=None, alias=None, shared=None, mutate=None, handed=None):
+# every call that raised in THIS process, oldest first: (events, alias, step).  Used only when a violation does not
+# reproduce in a new process: then state outside the objects (module / class level) survived some failed call, and
+# the replay gets that call as a prelude.
+PROCESS_FAILED = []
+
+
+def note_failed(evs, alias, step):
+    PROCESS_FAILED.append(dict(events=json.loads(json.dumps(evs)), alias=alias, step=dict(step)))
+
+
+def _session(evs, alias, shared):
+    """(particle lists, object, log of failed calls) - a fresh object unless a long-lived one is given"""
+    if shared:
+        return shared
+    pl = make_particles(evs, alias)
+    return pl, new_bo(pl), []
+
+
+def failed_call_check(meth, before, after, what):
+    """a call that raised must leave the object and its input exactly as they were"""
+    if before == after:
+        return None
+    parts = ["particle lists", "read-only view", "instance attributes", "class attributes"]
+    changed = [n for n, a, b_ in zip(parts, before, after) if a != b_]
+    return (f"error-path:object-changed-by-failed-call:{meth}",
+            f"{what} raised, and afterwards the BulkObservables object is not what it was before the call: changed {changed}",
+            dict(changed=changed))
+
+
+def oracle_dn(evs, meth, b, tmpdir=None, alias=None, shared=None, mutate=None, handed=None, form=None, werr=False):
     """None or (key, what, detail): the property on the real code for one differential-yield call.
-    shared = (particle lists, BulkObservables object) to run the call on a long-lived object.
+    shared = (particle lists, BulkObservables object, log) to run the call on a long-lived object.
     mutate: after all checks the caller modifies the Histogram it was handed (see apply_mutation).
-    handed: list collecting (result object, its values, its edges) of un-modified results."""
-    pl, bo = shared if shared else (make_particles(evs, alias), None)
-    q = quantity_values(pl, DN_METHODS[meth])
-    if any(v != v or abs(v) == float("inf") for e in q for v in e):
-        return None  # the statement speaks about particles that have the quantity
+    handed: list collecting (result object, its values, its edges) of un-modified results.
+    form: one of CALL_FORMS; werr: warnings are errors during the call (it may then fail midway).
+    A call on data for which the quantity does not exist (NaN / raising element) is expected to fail: it is not judged,
+    but like every failed call it must leave the object unchanged."""
+    pl, bo, log = _session(evs, alias, shared)
+    try:
+        q = quantity_values(pl, DN_METHODS[meth])
+        valid = not any(v != v or abs(v) == float("inf") for e in q for v in e)
+    except Exception:  # noqa: BLE001  (an element that does not have the quantity)
+        q, valid = None, False
     edges = edges_of(meth, b)
     if not edges_contract(meth, b, edges):
         return None
-    snap = snapshot(pl)
-    real = call_dn(pl, meth, b, bo)
-    if snapshot(pl) != snap:
+    before = observe(bo, pl)
+    real = call_dn(pl, meth, b, bo, form, werr)
+    after = observe(bo, pl)
+    btxt = f"{b.get('flavour', b['kind'])} {bins_arg(b)!r}" + (f" [{form}]" if form else "") + (" [warnings=error]" if werr else "")
+    if after[0] != before[0]:
         return (f"input-modified/{meth}", f"{meth} modified the particle lists passed in", {})
-    if rejected(b, real):
-        return None
+    raised = real[0] != "ok" and not str(real[1]).startswith("shape")
+    if raised:
+        log.append(meth)
+        note_failed(evs, alias, dict(method=meth, bins=b, form=form, werr=werr))
+        r = failed_call_check(meth, before, after, f"{meth}({btxt})")
+        if r:
+            return r
+    if rejected(b, real) or not valid or (werr and raised):
+        return None  # the statement speaks about particles that have the quantity / a caller-provoked failure
     btxt = f"{b.get('flavour', b['kind'])} {bins_arg(b)!r}"
     if real[0] != "ok":
-        if real[1].startswith("shape"):
+        if str(real[1]).startswith("shape"):
             return (f"{meth}/histogram-shape", f"{meth}({btxt}).histogram() has {real[1]}, expected one row", dict(observed=real[:2]))
         return (f"{meth}/raises-{real[1]}", f"{meth}({btxt}) raises {real[1]} on {len(evs)} events", dict(observed=real[:2]))
     want = ref_dn(q, edges)
@@ -805,43 +1055,70 @@ def oracle_dn(evs, meth, b, tmpdir=None, alias=None, shared=None, mutate=None, h
     return None
 
 
-def oracle_mid(evs, meth, w, flavour, alias=None, shared=None):
-    pl, bo = shared if shared else (make_particles(evs, alias), None)
+def oracle_mid(evs, meth, w, flavour, alias=None, shared=None, form=None, werr=False):
+    pl, bo, log = _session(evs, alias, shared)
     try:
         y = quantity_values(pl, flavour)
         x = quantity_values(pl, MID_METHODS[meth]) if MID_METHODS[meth] else None
-    except Exception:  # noqa: BLE001   (e.g. spacetime_rapidity outside the light cone)
-        return None
-    if any(v != v or abs(v) == float("inf") for e in y for v in e) or (x and any(v != v for e in x for v in e)):
-        return None
-    if not (isinstance(w, (int, float)) and w > 0):
-        return None
-    snap = snapshot(pl)
-    real = call_mid(pl, meth, w, flavour, bo=bo)
-    if snapshot(pl) != snap:
+        valid = not (any(v != v or abs(v) == float("inf") for e in y for v in e) or (x and any(v != v for e in x for v in e)))
+    except Exception:  # noqa: BLE001   (e.g. spacetime_rapidity outside the light cone, an element without the method)
+        y = x = None
+        valid = False
+    valid = valid and isinstance(w, (int, float)) and not isinstance(w, bool) and w > 0
+    before = observe(bo, pl)
+    real = call_mid(pl, meth, w, flavour, bo=bo, form=form, werr=werr)
+    after = observe(bo, pl)
+    if after[0] != before[0]:
         return (f"input-modified/{meth}", f"{meth} modified the particle lists passed in", {})
+    if real[0] != "ok":
+        log.append(meth)
+        note_failed(evs, alias, dict(method=meth, y_width=w, quantity=flavour, form=form, werr=werr))
+        r = failed_call_check(meth, before, after, f"{meth}({w!r}, {flavour!r})" + (" [warnings=error]" if werr else ""))
+        if r:
+            return r
+    if not valid or (werr and real[0] != "ok"):
+        return None
     first_empty = len(evs) > 0 and len(evs[0]) == 0
     any_empty = any(len(e) == 0 for e in evs)
     want = ref_yield(y, w) if x is None else ref_mean(y, x, w)
     if real[0] != "ok":
         cls = "empty-first-event" if first_empty else "empty-event" if any_empty else "events"
-        return (f"{meth}/{cls}: {real[1]}", f"{meth}({w}, {flavour!r}) raises {real[1]}; expected {float(want)!r}",
+        return (f"{meth}/{cls}: {real[1]}", f"{meth}({w}, {flavour!r}){' [' + form + ']' if form else ''} raises {real[1]}; expected {float(want)!r}",
                 dict(observed=real, expected=float(want)))
     if not close(real[1], float(want), rel=1e-9, abs_=1e-300):
         if x is None:
             key = f"{meth}/per-event-count"
         else:
             key = f"{meth}/empty-event: non-finite" if (any_empty and not math.isfinite(real[1])) else f"{meth}/per-event-mean"
-        return (key, f"{meth}({w}, {flavour!r}) = {real[1]!r}, expected {float(want)!r} "
+        return (key, f"{meth}({w}, {flavour!r}){' [' + form + ']' if form else ''} = {real[1]!r}, expected {float(want)!r} "
                      f"({'mean count inside the window per event' if x is None else 'mean over events with a particle inside of (sum inside / number inside)'})",
                 dict(observed=real[1], expected=float(want)))
     return None
 
 
+def run_error_step(evs, step, alias=None, shared=None):
+    """a call that must fail because of its arguments; caught the way a caller would; the object must be unchanged"""
+    pl, bo, log = _session(evs, alias, shared)
+    kind, mk = ERR_STEPS[step["error"]]
+    before = observe(bo, pl)
+    try:
+        invoke(bo, step["method"], list(mk()), {})
+        return None
+    except Exception as e:  # noqa: BLE001
+        log.append(step["method"])
+        note_failed(evs, alias, step)
+        return failed_call_check(step["method"], before, observe(bo, pl),
+                                 f"{step['method']}{mk()!r} [{step['error']}: {type(e).__name__}]")
+
+
 def run_call(evs, call, tmpdir=None, alias=None, shared=None, handed=None):
+    if call.get("error"):
+        return run_error_step(evs, call, alias, shared)
     if call["method"] in DN_METHODS:
-        return oracle_dn(evs, call["method"], call["bins"], tmpdir, alias, shared, call.get("mutate"), handed)
-    return oracle_mid(evs, call["method"], call["y_width"], call["quantity"], alias, shared)
+        return oracle_dn(evs, call["method"], call["bins"], tmpdir, alias, shared, call.get("mutate"), handed,
+                         call.get("form"), bool(call.get("werr")))
+    return oracle_mid(evs, call["method"], call["y_width"], call["quantity"], alias, shared,
+                      call.get("form"), bool(call.get("werr")))
 
 
 def check_handed(handed):
@@ -856,31 +1133,60 @@ def check_handed(handed):
     return None
 
 
-def run_history(evs, history, alias=None, tmpdir=None):
-    """all calls of `history` in a row on ONE BulkObservables object; -> (index, result) of the first failing call.
-    A call may carry "mutate": the caller then modifies the Histogram it got (after it was checked)."""
-    pl = make_particles(evs, alias)
-    shared = (pl, new_bo(pl))
-    handed = []
+class Sessions:
+    """the long-lived objects of one history: object 0 holds the sample as given (poison elements included), object 1
+    (created on first use) holds the same sample without the poison elements - it shares the class, not the data"""
+
+    def __init__(self, evs, alias=None, ctor_form="positional"):
+        self.evs = [evs, strip_poison(evs)]
+        self.alias = [alias, None if has_poison(evs) else alias]
+        self.ctor_form = ctor_form
+        self.s = [None, None]
+        self.log = []
+        self.handed = []
+
+    def get(self, k):
+        if self.s[k] is None:
+            pl = make_particles(self.evs[k], self.alias[k])
+            self.s[k] = (pl, new_bo(pl, self.ctor_form), self.log)
+        return self.evs[k], self.alias[k], self.s[k]
+
+    def step(self, call, tmpdir=None):
+        k = int(call.get("obj", 0))
+        evs, alias, shared = self.get(k)
+        r = run_call(evs, call, tmpdir if call["method"] in DN_METHODS and not call.get("error") else None,
+                     alias, shared, self.handed)
+        return r or check_handed(self.handed)
+
+
+def run_history(evs, history, alias=None, tmpdir=None, ctor_form="positional"):
+    """all steps of `history` in a row on ONE long-lived BulkObservables object (steps with "obj": 1 on a second one);
+    -> (index, result, number of steps that raised before it) of the first failing step, or None.
+    A step may carry "mutate" (the caller modifies the Histogram it got, after it was checked), "form" (call form),
+    "werr" (warnings are errors during the call), "error" (a call with invalid arguments, see ERR_STEPS)."""
+    ss = Sessions(evs, alias, ctor_form)
     for i, call in enumerate(history):
-        r = run_call(evs, call, tmpdir if call["method"] in DN_METHODS else None, alias, shared, handed)
-        r = r or check_handed(handed)
+        nraised = len(ss.log)
+        r = ss.step(call, tmpdir)
         if r:
-            return i, r
+            return i, r, nraised
     return None
 
 
 def build_history(rng, calls, pl):
-    """a call sequence for ONE long-lived object: every call twice and one four times, shuffled; after some
-    differential-yield calls a twin (same numbers, other kind / element type / container), or the caller
-    modifies the result it got and asks the same question again; plus one (tuple spec, edge list) pair
-    with the same three numbers"""
+    """a call sequence for ONE long-lived object: every call twice and one four times, shuffled, each in a random call
+    form; after some differential-yield calls a twin (same numbers, other kind / element type / container), or the
+    caller modifies the result it got and asks the same question again; one (tuple spec, edge list) pair with the same
+    three numbers; ERROR-PATH steps: calls with invalid arguments, valid calls issued with warnings-as-errors (they
+    fail at the first warning, i.e. midway), each followed somewhere by valid calls on this object and on a second
+    object of the same class"""
     order = list(range(len(calls))) * 2 + [rng.randrange(len(calls))] * 2
     rng.shuffle(order)
     hist = []
     tail = []
     for k in order:
         c = dict(calls[k])
+        c["form"] = rng.choice(CALL_FORMS)
         hist.append(c)
         if c["method"] not in DN_METHODS:
             continue
@@ -888,18 +1194,33 @@ def build_history(rng, calls, pl):
         if r < 0.3:
             tw = twins(c["bins"])
             for t in rng.sample(tw, min(len(tw), rng.randint(1, 2))):
-                hist.append(dict(method=c["method"], bins=t))
+                hist.append(dict(method=c["method"], bins=t, form=rng.choice(CALL_FORMS)))
         elif r < 0.6:
             edges = edges_of(c["method"], c["bins"])
             if edges_contract(c["method"], c["bins"], edges):
                 c["mutate"] = gen_mutation(rng, edges)
-                again = dict(method=c["method"], bins=c["bins"])
+                again = dict(method=c["method"], bins=c["bins"], form=rng.choice(CALL_FORMS))
                 (hist if rng.random() < 0.6 else tail).append(again)
     meth = rng.choice(list(DN_METHODS))
-    pair = [dict(method=meth, bins=b) for b in gen_seq_pair(rng, meth)]
+    pair = [dict(method=meth, bins=b, form=rng.choice(CALL_FORMS)) for b in gen_seq_pair(rng, meth)]
     pos = rng.randrange(len(hist) + 1)
     hist[pos:pos] = pair
-    return hist + tail
+    hist = hist + tail
+    # error-path steps
+    for _ in range(rng.randint(2, 4)):
+        name = rng.choice(sorted(ERR_STEPS))
+        meth = rng.choice(list(DN_METHODS) if ERR_STEPS[name][0] == "dn" else list(MID_METHODS))
+        hist.insert(rng.randrange(len(hist)), dict(method=meth, error=name))
+    for _ in range(rng.randint(2, 3)):
+        base = rng.choice(calls)
+        pos = rng.randrange(len(hist))
+        hist.insert(pos, dict(base, werr=True, form=rng.choice(CALL_FORMS)))
+        if rng.random() < 0.7:  # the same question right after the provoked failure
+            hist.insert(pos + 1, dict(base, form=rng.choice(CALL_FORMS)))
+    for _ in range(rng.randint(1, 3)):  # valid calls on ANOTHER object, somewhere in the second half
+        c = dict(rng.choice(calls), obj=1, form=rng.choice(CALL_FORMS))
+        hist.insert(rng.randrange(len(hist) // 2, len(hist) + 1), c)
+    return hist
 
 
 def shrink(evs, call, key, alias=None, fails=None):
@@ -913,7 +1234,7 @@ def shrink(evs, call, key, alias=None, fails=None):
         if not fails(evs, None):
             return evs, alias
         alias = None
-    cur = [[list(p) for p in e] for e in evs]
+    cur = json.loads(json.dumps(evs))
     changed = True
     while changed:
         changed = False
@@ -936,6 +1257,64 @@ def shrink(evs, call, key, alias=None, fails=None):
     return cur, None
 
 
+# ------------------------------------------------------------------ reproducibility in a new process
+def run_prelude(prelude):
+    """earlier failed calls of the process, each on a fresh object over its own data, caught like a caller would"""
+    for e in prelude or []:
+        try:
+            Sessions(e["events"], e.get("alias")).step(e["step"])
+        except Exception:  # noqa: BLE001
+            pass
+
+
+def run_input(inp, tmpdir=None):
+    """the replay of one recorded input: (step index or None, result or None, earlier raised steps)"""
+    run_prelude(inp.get("prelude"))
+    if "history" in inp:
+        rr = run_history(inp["events"], inp["history"], inp.get("alias"), tmpdir, inp.get("ctor_form", "positional"))
+        return rr if rr else (None, None, 0)
+    call = inp["call"]
+    r = run_call(inp["events"], call, tmpdir if call["method"] in DN_METHODS and not call.get("error") else None,
+                 alias=inp.get("alias"))
+    return (0 if r else None), r, 0
+
+
+def _spawn_replay(inp):
+    """./check C14 --replay in a NEW process (same tree under test); -> (return code, stdout)"""
+    import subprocess
+    import sys
+    fd, path = tempfile.mkstemp(prefix="c14_replay_", suffix=".json", dir="/tmp")
+    try:
+        with os.fdopen(fd, "w") as f:
+            json.dump(dict(input=inp), f)
+        p = subprocess.run([sys.executable, str(common.VERIF / "harness/main.py"), "C14", "--replay", path],
+                           capture_output=True, text=True, timeout=600)
+        return p.returncode, p.stdout
+    finally:
+        os.unlink(path)
+
+
+def reproduces(inp):
+    return _spawn_replay(inp)[0] == 1
+
+
+def find_prelude(inp):
+    """the input does not fail in a new process: look for the earlier failed call(s) of this process after which it
+    does.  One new process replays the failed calls oldest first and tries the input after each of them."""
+    cands = list(PROCESS_FAILED)
+    if not cands:
+        return None
+    rc, out = _spawn_replay(dict(inp, prelude_candidates=cands))
+    idx = [int(l.split()[1]) for l in out.splitlines() if l.startswith("PRELUDE-INDEX ")]
+    if not idx:
+        return None
+    j = idx[0]
+    for pre in ([cands[j]], cands[max(0, j - 3):j + 1], cands[:j + 1]):
+        if reproduces(dict(inp, prelude=pre)):
+            return pre
+    return None
+
+
 # ------------------------------------------------------------------ search on the real code
 def corpus():
     p = common.VERIF / "harness/corpus/C14"
@@ -949,6 +1328,31 @@ def search(ctx, budget_s):
     n = 0
     tmpdir = tempfile.mkdtemp(prefix="c14_", dir="/tmp")
 
+    budget = dict(prelude_searches=2)
+
+    def emit(key, what, inp, detail, how):
+        """record a violation; first make sure its replay fails in a NEW process.  If it does not, state outside the
+        objects survived an earlier failed call of this process: that call becomes the prelude of the replay."""
+        extra = {}
+        if not reproduces(inp):
+            pre = None
+            if budget["prelude_searches"] > 0:
+                budget["prelude_searches"] -= 1
+                pre = find_prelude(inp)
+            if pre is not None:
+                inp = dict(inp, prelude=pre)
+                m = (inp.get("call") or inp["history"][-1])["method"]
+                key = f"instance-reuse-after-error-{m}: state outside the object survives a failed call: {key}"
+                what = (f"after {len(pre)} failed call(s) on OTHER objects (caught by the caller; module- or class-level state) "
+                        f"a valid call on a fresh object goes wrong: {what}")
+            else:
+                extra = dict(reproducible_in_new_process=False,
+                             note="this input failed inside the check's process but not in a new one: the failure depends on "
+                                  "state left behind by earlier calls of the process (see the first violation of this run)")
+                key = key + " [only after earlier calls of the process]"
+        seen.add(key)
+        ctx.violation(key, what, dict(input=inp, detail=detail, how_to_replay=how, **extra))
+
     def report(evs, alias, call, r, do_shrink=True):
         if r[0] in seen:
             return
@@ -958,49 +1362,67 @@ def search(ctx, budget_s):
             r2 = run_call(small, call, alias=al)
             if r2 and r2[0] == r[0]:
                 evs, alias, r = small, al, r2
-        ctx.violation(r[0], r[1], dict(input=dict(events=evs, alias=alias, call=call), detail=r[2],
-                                       how_to_replay="./check C14 --replay <this file>"))
+        emit(r[0], r[1], dict(events=evs, alias=alias, call=call), r[2], "./check C14 --replay <this file>")
 
-    def report_reuse(evs, alias, history, r):
-        key = f"instance-reuse-{history[-1]['method']}: {r[0]}"
-        if key in seen:
+    def report_reuse(evs, alias, history, r, ctor_form="positional"):
+        """a failure inside a history on long-lived objects: minimise the history (drop steps that are not needed), shrink
+        the events, name it: a failed call that changed the object keeps its own key; a wrong answer after at least one
+        failed call is `instance-reuse-after-error-...`, otherwise `instance-reuse-...`; a history that shrinks to the
+        single failing call is an ordinary violation of that call"""
+        base = f"{history[-1]['method']}: {r[0]}"
+        if base in seen:
             return
-        seen.add(key)
-        # drop earlier calls that are not needed for the failure
+        seen.add(base)
         hist = list(history)
         i = 0
         while i < len(hist) - 1:
             cand = hist[:i] + hist[i + 1:]
-            rr = run_history(evs, cand, alias)
+            rr = run_history(evs, cand, alias, None, ctor_form)
             if rr and rr[0] == len(cand) - 1 and rr[1][0] == r[0]:
                 hist = cand
             else:
                 i += 1
 
         def still(c, al=None):
-            rr = run_history(c, hist, al)
-            return bool(rr) and rr[0] == len(hist) - 1 and rr[1][0] == r[0] and \
-                (r[0] == "earlier-result-changed" or run_call(c, hist[-1], alias=al) is None)
+            rr = run_history(c, hist, al, None, ctor_form)
+            return bool(rr) and rr[0] == len(hist) - 1 and rr[1][0] == r[0]
 
         evs, alias = shrink(evs, None, None, alias, fails=still)
-        rr = run_history(evs, hist, alias)
+        rr = run_history(evs, hist, alias, None, ctor_form)
+        nraised = 0
         if rr:
-            r = rr[1]
-        ctx.violation(key, f"a BulkObservables object that already served {len(hist) - 1} call(s) gives a wrong answer where "
-                           f"a fresh object is right: {r[1]}",
-                      dict(input=dict(events=evs, alias=alias, history=hist), detail=r[2],
-                           how_to_replay="./check C14 --replay <this file>  (runs the whole history on one object)"))
+            r, nraised = rr[1], rr[2]
+        last = hist[-1]
+        if len(hist) == 1 and not last.get("error") and int(last.get("obj", 0)) == 0 and not has_poison(evs) and \
+                (ctor_form == "positional" or run_call(evs, last, alias=alias) is not None):
+            if r[0] not in seen:
+                seen.add(r[0])
+                emit(r[0], r[1], dict(events=evs, alias=alias, call=last), r[2], "./check C14 --replay <this file>")
+            return
+        if r[0].startswith("error-path:"):
+            key, what = r[0], r[1]
+        elif nraised:
+            key = f"instance-reuse-after-error-{last['method']}: {r[0]}"
+            what = (f"after {nraised} failed call(s) (caught by the caller) in a history of {len(hist)} steps a valid call gives a wrong "
+                    f"answer: {r[1]}")
+        else:
+            key = f"instance-reuse-{last['method']}: {r[0]}"
+            what = (f"a BulkObservables object that already served {len(hist) - 1} call(s) gives a wrong answer where "
+                    f"a fresh object is right: {r[1]}")
+        if key in seen:
+            return
+        seen.add(key)
+        emit(key, what, dict(events=evs, alias=alias, history=hist, ctor_form=ctor_form), r[2],
+             "./check C14 --replay <this file>  (runs the whole history in a new process: steps with 'error' / 'werr' are "
+             "expected to raise and are caught, 'obj': 1 is a second object, 'prelude' = earlier failed calls on other objects)")
 
     try:
         for case in corpus():
             if "history" in case:
-                rr = run_history(case["events"], case["history"], case.get("alias"), tmpdir)
+                rr = run_history(case["events"], case["history"], case.get("alias"), tmpdir, case.get("ctor_form", "positional"))
                 if rr:
-                    bad = case["history"][rr[0]]
-                    if rr[1][0] != "earlier-result-changed" and run_call(case["events"], bad, alias=case.get("alias")):  # a fresh object fails as well
-                        report(case["events"], case.get("alias"), bad, rr[1], do_shrink=False)
-                    else:
-                        report_reuse(case["events"], case.get("alias"), case["history"][:rr[0] + 1], rr[1])
+                    report_reuse(case["events"], case.get("alias"), case["history"][:rr[0] + 1], rr[1],
+                                 case.get("ctor_form", "positional"))
             else:
                 r = run_call(case["events"], case["call"], tmpdir if case["call"]["method"] in DN_METHODS else None,
                              alias=case.get("alias"))
@@ -1029,42 +1451,50 @@ def search(ctx, budget_s):
                 calls.append(dict(method=meth, bins=gen_bins(rng, meth, quantity_values(pl, qname))))
             flavour = rng.choice(FLAVOURS)
             w = gen_width(rng, quantity_values(pl, flavour))
+            if rng.random() < 0.12:
+                w, flavour = 1.0, "rapidity"  # the documented defaults, so that "defaults-omitted" omits both
             for meth in MID_METHODS:
                 calls.append(dict(method=meth, y_width=w, quantity=flavour))
-            # fresh object per call
-            fresh_ok = []
+            # fresh object per call, each call in a random call form (constructor included)
             for call in calls:
-                r = run_call(evs, call, tmpdir if call["method"] in DN_METHODS else None, alias)
-                ctx.case(("oracle", json.dumps(call), json.dumps(evs), json.dumps(alias)), len(evs) >= 2)
+                c = dict(call, form=rng.choice(CALL_FORMS))
+                ss = Sessions(evs, alias, rng.choice(["positional", "keyword"]))
+                r = ss.step(c, tmpdir)
+                ctx.case(("oracle", json.dumps(c), json.dumps(evs), json.dumps(alias)), len(evs) >= 2)
+                ctx.count(f"oracle/call-form/{c['form']}")
                 if call["method"] in DN_METHODS:
                     ctx.count(f"oracle/{call['method']}/bins={call['bins']['flavour']}")
-                fresh_ok.append(r is None)
                 if r:
-                    report(evs, alias, call, r)
+                    if ss.ctor_form == "positional" and run_call(evs, c, alias=alias):
+                        report(evs, alias, c, r)
+                    else:
+                        report_reuse(evs, alias, [c], r, ss.ctor_form)
             ctx.count(f"oracle-sample/{tag}")
-            # every second sample: a perturbed call sequence (build_history) on ONE long-lived object
+            # every second sample: a perturbed call sequence (build_history) on long-lived objects; half of these samples
+            # carry poison elements (first / middle / last position) that make SOME calls raise midway
             if n % 2 == 1:
                 full = build_history(rng, calls, pl)
-                pl2 = make_particles(evs, alias)
-                shared = (pl2, new_bo(pl2))
-                handed = []
+                hevs = evs
+                if alias is None and evs and rng.random() < 0.5:
+                    hevs = inject_poison(rng, evs)
+                    ctx.count("oracle-reuse/sample-with-poison-elements")
+                ctor_form = rng.choice(["positional", "keyword"])
+                ss = Sessions(hevs, alias, ctor_form)
                 history = []
                 for call in full:
                     history.append(call)
-                    r = run_call(evs, call, tmpdir if call["method"] in DN_METHODS else None, alias, shared, handed)
-                    r = r or check_handed(handed)
-                    ctx.case(("oracle-reuse", json.dumps(history), json.dumps(evs)), len(evs) >= 2)
+                    nr = len(ss.log)
+                    r = ss.step(call, tmpdir)
+                    ctx.case(("oracle-reuse", json.dumps(history), json.dumps(hevs)), len(evs) >= 2)
                     if call.get("mutate"):
                         ctx.count(f"oracle-reuse/result-mutated/{call['mutate'].split(':')[0]}")
-                    if r and r[0] == "earlier-result-changed":
-                        report_reuse(evs, alias, history, r)
-                        break
+                    if len(ss.log) > nr:
+                        ctx.count("oracle-reuse/failed-call/" + ("invalid-argument" if call.get("error") else
+                                                                   "warnings-as-errors" if call.get("werr") else "bad-element"))
+                    elif nr and not call.get("error"):
+                        ctx.count("oracle-reuse/valid-call-after-failed-call" + ("/other-object" if call.get("obj") else ""))
                     if r:
-                        plain = {k: v for k, v in call.items() if k != "mutate"}
-                        if run_call(evs, plain, alias=alias) is None:  # a fresh object answers this call correctly
-                            report_reuse(evs, alias, history, r)
-                        else:
-                            report(evs, alias, plain, r)
+                        report_reuse(hevs, alias, history, r, ctor_form)
                         break
                 ctx.count("oracle-sample/reused-object-history")
                 ctx.count("oracle-reuse/calls", len(history))
@@ -1085,14 +1515,19 @@ def replay(ctx, path):
         return 1
     tmpdir = tempfile.mkdtemp(prefix="c14_", dir="/tmp")
     try:
-        if "history" in inp:
-            rr = run_history(inp["events"], inp["history"], inp.get("alias"), tmpdir)
-            r = rr[1] if rr else None
-            if rr:
-                print(f"[C14] call {rr[0] + 1} of {len(inp['history'])} on the re-used object fails")
-        else:
-            r = run_call(inp["events"], inp["call"], tmpdir if inp["call"]["method"] in DN_METHODS else None,
-                         alias=inp.get("alias"))
+        if "prelude_candidates" in inp:
+            # scan mode (used by the check itself): replay earlier failed calls oldest first, try the input after each
+            base = {k: v for k, v in inp.items() if k != "prelude_candidates"}
+            for j, e in enumerate(inp["prelude_candidates"]):
+                run_prelude([e])
+                if run_input(base)[1]:
+                    print(f"PRELUDE-INDEX {j}")
+                    return 1
+            return 0
+        i, r, nraised = run_input(inp, tmpdir)
+        if r and "history" in inp:
+            print(f"[C14] step {i + 1} of {len(inp['history'])} on the long-lived object(s) fails "
+                  f"({nraised} earlier step(s) raised and were caught)")
     finally:
         for f in os.listdir(tmpdir):
             os.unlink(os.path.join(tmpdir, f))
